@@ -11,11 +11,23 @@ def truncated_files(chk, tier):
     import json
     import random
     import shutil
-    from checks.reader_common import make_files, reader_dumps
+    from checks.reader_common import make_files, reader_dumps, tlc_variants
     from checks.c18 import segs
     rng = random.Random(chk.seed * 41 + 5)
     work = vlib.scratch("c05f")
     files = make_files(work, rng, 6 if tier == "quick" else 40, nops=(10, 25), big=2 if tier == "quick" else 8)
+    # the same files with a DEFINITE-length blocks array (preferred and widened count; Reader.tla: the other branch of
+    # read_block) and with an indefinite-length file array, written by TLC (Rewrite!DefBlocks)
+    vdir = work / "defblocks"
+    vdir.mkdir()
+    nsmall = 0
+    small = sorted((f for f in files if f.stat().st_size <= 20000), key=lambda f: f.stat().st_size)
+    for f, v, b in tlc_variants(work, small[: (3 if tier == "quick" else 40)], "defblocks", 4, chk.seed, maxsize=20000):
+        p = vdir / f"{f.stem}_d{v}.cdns"
+        p.write_bytes(b)
+        files.append(p)
+        nsmall += 1
+    chk.extra["definite_blocks_array_variants"] = nsmall
     cdir = work / "cuts"
     cdir.mkdir()
     jobs = []
@@ -63,12 +75,27 @@ def truncated_files(chk, tier):
     return merged
 
 
+def reader_models(chk):
+    import shutil
+    work = vlib.scratch("c05rdmc")
+    for bug, expect in (("none", "ok"), ("eof_not_sticky", "violated"), ("count_from_one", "violated"), ("partial_block", "violated")):
+        cfg = vlib.make_cfg(work / f"MCReader_{bug}.cfg", spec="MCSpec", constants={"MaxBlocks": 3, "RBug": f'"{bug}"'},
+                            invariants=["C05_ReaderExact", "ReaderBounds"])
+        res, verdict = vlib.model_check("MCReader", cfg, workers=2, timeout=300)
+        chk.add_model("MCReader(files <= 3 blocks, both kinds of blocks array, every cut, n+3 calls)" if bug == "none"
+                      else f"MCReader[RBug={bug}] (self-test, must fail)", res, verdict, expect=expect)
+    shutil.rmtree(work, ignore_errors=True)
+
+
 def run(tier):
     chk = Check("C05", tier, "model_checking")
     chk.rule = ("stream lengths k*W+d (k=0..3, d=-2..2) x stream kind (string, file, unopened) x first op (peek/read) x "
-                "last op; every truncation of every generated item at several alignments; one execution each")
+                "last op; every truncation of every generated item at several alignments; Reader.tla (reader state machine) for all "
+                "small files x cuts; real files and TLC-written variants with a definite-length blocks array / indefinite-length "
+                "file array cut at block boundaries, window boundaries and random points; one execution each")
     chk.assumptions = ["TLC + CommunityModules", "driver logging (harness/dec_driver.cpp)"]
     decoder_models(chk, tier, selftests=["stale"])
+    reader_models(chk)
     m1 = decoder_traces(chk, tier, {"C05"}, "lengths")
     m2 = decoder_traces(chk, tier, {"C05"}, "lengths", scaled=True)
     m3 = decoder_traces(chk, tier, {"C05"}, "items")
